@@ -585,6 +585,106 @@ theorem sim_history_inv (g : Glue) (hg : GlueOk g = true) (c : SContent) (ops : 
         exact ⟨by rw [← hj.2]; exact Nat.le_refl _, fun _ => rfl⟩
   exact (run_good g hg ops _ s outs hinv hr).2
 
+/-- the integrator is without a Jacobian exactly because the model did not convert WHEN THE INTEGRATOR WAS LAST BUILT:
+    `b` = the content at construction / the last re-initialisation, `c` = the current content -/
+def NoJacJustified : SContent → SContent → List SimOp → List SimOut → Prop
+  | _, _, [], _ => True
+  | b, c, .setPar k v :: ops, _ :: outs => NoJacJustified b (c.setPar k v) ops outs
+  | b, _, .edit c' :: ops, _ :: outs => NoJacJustified b c' ops outs
+  | _, c, .reinit :: ops, _ :: outs => NoJacJustified c c ops outs
+  | b, c, .call _ _ :: ops, .noJac :: outs => installJac b = none ∧ NoJacJustified b c ops outs
+  | b, c, .call _ _ :: ops, _ :: outs => NoJacJustified b c ops outs
+  | _, _, _ :: _, [] => True
+
+theorem run_noJac (g : Glue) (hg : GlueOk g = true) : ∀ (ops : List SimOp) (s s' : SimState) (outs : List SimOut)
+    (b : SContent), (s.jac = none → installJac b = none) → runG g s ops = .ok (s', outs) →
+    NoJacJustified b s.content ops outs := by
+  intro ops
+  induction ops with
+  | nil => intro s s' outs b _ _; simp [NoJacJustified]
+  | cons op ops ih =>
+    intro s s' outs b hb h
+    simp only [runG, bind, Except.bind] at h
+    cases hs : s.stepG g op with
+    | error e => simp [hs] at h
+    | ok r =>
+      obtain ⟨s1, o⟩ := r
+      simp only [hs] at h
+      cases hr : runG g s1 ops with
+      | error e => simp [hr] at h
+      | ok r2 =>
+        obtain ⟨s2, os⟩ := r2
+        simp only [hr, pure, Except.pure, Except.ok.injEq, Prod.mk.injEq] at h
+        obtain ⟨_, h2⟩ := h
+        subst h2
+        cases op with
+        | setPar k v =>
+          simp only [SimState.stepG, Except.ok.injEq, Prod.mk.injEq] at hs
+          obtain ⟨h1, _⟩ := hs
+          subst h1
+          simp only [NoJacJustified]
+          refine ih _ s2 os b ?_ hr
+          exact hb
+        | edit c' =>
+          simp only [SimState.stepG, Except.ok.injEq, Prod.mk.injEq] at hs
+          obtain ⟨h1, _⟩ := hs
+          subst h1
+          simp only [NoJacJustified]
+          refine ih _ s2 os b ?_ hr
+          exact hb
+        | reinit =>
+          simp only [SimState.stepG, installG_eq g hg, bind, Except.bind, pure, Except.pure, Except.ok.injEq,
+            Prod.mk.injEq] at hs
+          obtain ⟨h1, _⟩ := hs
+          subst h1
+          simp only [NoJacJustified]
+          refine ih { s with version := verAfterCompile s.content s.version,
+                             jac := (installJac s.content).map fun cl =>
+                               (cl, if g.cacheReadAfter then verAfterCompile s.content s.version else s.version) }
+            s2 os s.content ?_ hr
+          intro hnone
+          cases hij : installJac s.content with
+          | none => rfl
+          | some cl => simp only [hij, Option.map_some] at hnone; cases hnone
+        | call t xs =>
+          simp only [SimState.stepG] at hs
+          cases hj : s.jac with
+          | none =>
+            simp only [hj, Except.ok.injEq, Prod.mk.injEq] at hs
+            obtain ⟨h1, h3⟩ := hs
+            subst h1 h3
+            simp only [NoJacJustified]
+            refine ⟨hb hj, ih _ s2 os b ?_ hr⟩
+            exact hb
+          | some clv =>
+            obtain ⟨cl, ver⟩ := clv
+            simp only [hj, Except.ok.injEq, Prod.mk.injEq] at hs
+            obtain ⟨h1, h3⟩ := hs
+            subst h1
+            have hnext : NoJacJustified b s.content ops os := by
+              refine ih { s with version := (if cl.recompilesG g ver s.content s.version then s.version + 1 else s.version),
+                                 jac := some (cl.callG g ver s.content s.version t xs).1 } s2 os b ?_ hr
+              intro hn; cases hn
+            cases o with
+            | upd => simp only [NoJacJustified]; exact hnext
+            | noJac =>
+              -- impossible: the closure exists, the output is a matrix or `raised`
+              cases hres : (cl.callG g ver s.content s.version t xs).2 <;> simp [hres] at h3
+            | mat J => simp only [NoJacJustified]; exact hnext
+            | raised => simp only [NoJacJustified]; exact hnext
+
+theorem sim_history_noJac (g : Glue) (hg : GlueOk g = true) (c : SContent) (ops : List SimOp) (s0 s : SimState)
+    (outs : List SimOut) (h0 : simInitG g c = .ok s0) (hr : runG g s0 ops = .ok (s, outs)) :
+    NoJacJustified c c ops outs := by
+  unfold simInitG at h0
+  simp only [installG_eq g hg, bind, Except.bind, pure, Except.pure, Except.ok.injEq] at h0
+  subst h0
+  refine run_noJac g hg ops _ s outs c ?_ hr
+  intro hnone
+  cases hij : installJac c with
+  | none => rfl
+  | some cl => simp [hij] at hnone
+
 /-- **every history**: build the Simulator on `c`, apply any sequence of parameter updates, other edits of the model,
     re-initialisations and Jacobian calls; every matrix the integrator receives is `jac_fn` of a fresh Simulator on the
     content the model has at that moment -/
